@@ -123,6 +123,13 @@ type RunResult struct {
 	RaceDelta int
 	Spawned   int
 	Leaked    int
+	Mutated   []MutatedValue
+}
+
+// MutatedValue: a string returned by a call read differently at the end of the run.
+type MutatedValue struct {
+	Task, Call      int
+	AtReturn, Later string
 }
 
 // ---------------------------------------------------------------- simulator
@@ -135,7 +142,11 @@ type poolItem struct {
 // Sim is the scheduler. One per process; library-global state it models
 // (pool contents, clock) persists across runs like the library's own globals.
 type Sim struct {
-	Exec func(api uint8, input string) string
+	// Exec performs one library call and returns the encoded result plus the raw
+	// string the library returned (the SQLi fingerprint), NOT copied: the
+	// simulator re-reads it at the end of the run to see whether a value already
+	// handed to a caller changed afterwards (aliasing of reused buffers).
+	Exec func(api uint8, input string) (res string, raw string)
 
 	pools map[uintptr][]poolItem
 	conds map[uintptr][]*Task
@@ -146,6 +157,7 @@ type Sim struct {
 	rng      *RNG
 	tasks    []*Task
 	live     []*Task // unfinished tasks, ordered by id
+	raws     [][]string
 	res      *RunResult
 	base     int64 // global steps at run start
 	fair     bool
@@ -162,7 +174,7 @@ type Sim struct {
 	last     *Task
 }
 
-func NewSim(exec func(api uint8, input string) string) *Sim {
+func NewSim(exec func(api uint8, input string) (string, string)) *Sim {
 	toSched = make(chan request)
 	return &Sim{Exec: exec, pools: map[uintptr][]poolItem{}, conds: map[uintptr][]*Task{}}
 }
@@ -203,6 +215,7 @@ func (s *Sim) Run(spec *RunSpec) *RunResult {
 	s.rng = NewRNG(spec.Seed ^ 0x5eed5eed5eed5eed)
 	s.tasks = s.tasks[:0]
 	s.live = s.live[:0]
+	s.raws = s.raws[:0]
 	s.res = &RunResult{Results: make([][]string, len(spec.Tasks)), CallSteps: make([][]int64, len(spec.Tasks))}
 	s.base = readSteps()
 	s.fair = false
@@ -217,6 +230,8 @@ func (s *Sim) Run(spec *RunSpec) *RunResult {
 		calls := spec.Tasks[i]
 		out := make([]string, len(calls))
 		cs := make([]int64, len(calls))
+		raws := make([]string, len(calls))
+		s.raws = append(s.raws, raws)
 		s.res.Results[i] = out
 		s.res.CallSteps[i] = cs
 		exec := s.Exec
@@ -225,7 +240,7 @@ func (s *Sim) Run(spec *RunSpec) *RunResult {
 				Yield(0)
 				callBegin(t)
 				s0 := taskSteps(t)
-				out[j] = exec(calls[j].API, calls[j].Input)
+				out[j], raws[j] = exec(calls[j].API, calls[j].Input)
 				cs[j] = taskSteps(t) - s0
 				callEnd(t)
 			}
@@ -274,6 +289,17 @@ func (s *Sim) Run(spec *RunSpec) *RunResult {
 		for _, v := range r {
 			if len(v) > 0 && v[0] == 'P' {
 				s.res.Faults.CallerPanic++
+			}
+		}
+	}
+	// values already returned to callers must not change afterwards
+	if !s.res.Deadlock && !s.res.NoReturn {
+		for i, rs := range s.raws {
+			for j, raw := range rs {
+				out := s.res.Results[i][j]
+				if len(out) >= 2 && out[0] == 'T' && out[1] == ':' && out[2:] != raw {
+					s.res.Mutated = append(s.res.Mutated, MutatedValue{Task: i, Call: j, AtReturn: out[2:], Later: string(append([]byte(nil), raw...))})
+				}
 			}
 		}
 	}
